@@ -326,13 +326,13 @@ fn vq_c12_close_sender_idle_and_closed_are_inert() {
     kani::cover!(!closed, "reach:idle");
 }
 
-// Bounded history: after close(), over any sequence of <= 4 events {timeout, incoming datagram, poll for
+// Bounded history: after close(), over any sequence of <= 5 events {timeout, incoming datagram, poll for
 // transmission} on a fixed 500 ms time grid (event i happens at i * 500 ms; close timeout and rtt are
 // chosen from small concrete sets so that expiry before / at / after every grid point occurs), every
 // copy of the close packet after the first one consumes one arming of the debounce timer, and the
 // debounce timer is armed by incoming datagrams only ("those only in response to incoming packets"):
 // copies <= 1 + armings <= 1 + datagrams received.  No copy is sent once Closed.
-//@ harness props=C12 tier=quick level=bounded timeout=300 bound="history of <= 4 events after close() on a 500 ms grid; rtt in {0, 400 ms, 1100 ms}; close timeout in {900 ms, 1600 ms, 60 s}"
+//@ harness props=C12 tier=thorough level=bounded timeout=1200 bound="history of <= 5 events after close() on a 500 ms grid; rtt in {0, 400 ms, 1100 ms}; close timeout in {900 ms, 1600 ms, 60 s}"
 //@ fn CloseSender::on_timeout
 //@ fn CloseSender::on_datagram_received
 //@ fn CloseSender::close
@@ -351,7 +351,7 @@ fn vq_c12_close_sender_history() {
     let mut datagrams: u32 = 0;
     let mut armings: u32 = 0;
     let mut i: u64 = 0;
-    while i < 4 {
+    while i < 5 {
         let now = t0 + Duration::from_millis(500 * i);
         match kani::any::<u8>() % 3 {
             0 => {
@@ -391,6 +391,6 @@ fn vq_c12_close_sender_history() {
     }
     kani::cover!(copies == 2, "reach:second_copy");
     kani::cover!(abs(&s).tag == 2, "reach:closed");
-    kani::cover!(abs(&s).tag == 1 && datagrams == 4, "reach:four_datagrams");
+    kani::cover!(abs(&s).tag == 1 && datagrams == 5, "reach:five_datagrams");
     kani::cover!(true, "reach:end");
 }
